@@ -396,7 +396,9 @@ def compile_nowrite(ctx):
         from vlib import pipeline, fixtures
         install()
         for kind in WRITERS:
-            for opts in ({'writeMibs': False}, {'dryRun': True}, {'writeMibs': False, 'dryRun': True}):
+            for opts in ({'writeMibs': False}, {'dryRun': True}, {'writeMibs': False, 'dryRun': True},
+                         # the way mibdump passes --no-mib-writes: both keys present
+                         {'writeMibs': False, 'dryRun': False}, {'writeMibs': False, 'dryRun': None}, {'writeMibs': True, 'dryRun': True}):
                 base = tempfile.mkdtemp(prefix='c13c')
                 try:
                     dest = os.path.join(base, 'out')
